@@ -134,8 +134,6 @@ nharness! {
 fn c14_ef_size() {
     let l: usize = kani::any();
     kani::assume(l <= 1024);
-    let room: usize = kani::any();
-    kani::assume(room <= 1100);
     let kind: u8 = kani::any();
     kani::assume(kind <= 1);
     let v5: bool = kani::any();
@@ -145,34 +143,60 @@ fn c14_ef_size() {
     let mut value = vec![fill; 1024];
     value.truncate(l);
     let ef = if kind == 0 { eh::ExtField::NtsCookie(Cow::Owned(value)) } else { eh::ExtField::NtsCookiePlaceholder { cookie_length: l as u16 } };
-    let mut buf = [0xEEu8; 1100];
-    let mut w = Cursor::new(&mut buf[..room]);
+    let mut buf = [0xEEu8; 1101];
+    let mut w = Cursor::new(&mut buf[..1100]);
     let version = if v5 { ExtensionHeaderVersion::V5 } else { ExtensionHeaderVersion::V4 };
     // minimum size 16: what the encoder uses for fields in front of the authenticator
     let r = eh::ef_serialize_hook(&ef, &mut w, 16, version);
     let pos = w.position() as usize;
     let want = ef_wire(l);
-    if room >= want {
-        assert!(r.is_ok(), "the field is written when it fits");
-        assert!(pos == want, "a cookie-sized field occupies exactly max(16, 4 + L rounded up to a word) bytes");
-        let len_field = ((buf[2] as usize) << 8) | buf[3] as usize;
-        if v5 {
-            assert!(len_field == core::cmp::max(l + 4, 16), "NTPv5 length field: unpadded length, at least 16");
-        } else {
-            assert!(len_field == want, "NTPv4 length field: padded length");
-        }
-        if j >= 4 && j < want {
-            let expect = if kind == 0 && j - 4 < l { fill } else { 0 };
-            assert!(buf[j] == expect, "value, then zero padding");
-        }
+    assert!(r.is_ok(), "the field is written when it fits");
+    assert!(pos == want, "a cookie-sized field occupies exactly max(16, 4 + L rounded up to a word) bytes");
+    let len_field = ((buf[2] as usize) << 8) | buf[3] as usize;
+    if v5 {
+        assert!(len_field == core::cmp::max(l + 4, 16), "NTPv5 length field: unpadded length, at least 16");
     } else {
-        assert!(r.is_err(), "a field that does not fit is an error, never a panic");
-        assert!(pos <= room);
+        assert!(len_field == want, "NTPv4 length field: padded length");
     }
-    kani::cover!(r.is_ok() && l == 1024 && kind == 1, "largest placeholder");
-    kani::cover!(r.is_ok() && l == 0, "empty cookie: padded to the minimum");
+    if j >= 4 && j < want {
+        let expect = if kind == 0 && j - 4 < l { fill } else { 0 };
+        assert!(buf[j] == expect, "value, then zero padding");
+    }
+    kani::cover!(l == 1024 && kind == 1, "largest placeholder");
+    kani::cover!(l == 0, "empty cookie: padded to the minimum");
+    kani::cover!(v5 && l % 4 == 1 && kind == 0, "v5 unpadded length");
+    core::mem::forget(ef);
+}
+
+// the same encoder when the field does not fit: an error, never a panic (small sizes)
+#[kani::proof]
+#[kani::unwind(5)]
+fn c14_ef_nofit() {
+    let l: usize = kani::any();
+    kani::assume(l <= 64);
+    let room: usize = kani::any();
+    kani::assume(room <= 80);
+    let kind: u8 = kani::any();
+    kani::assume(kind <= 1);
+    let v5: bool = kani::any();
+
+    let mut value = vec![0x5Au8; 64];
+    value.truncate(l);
+    let ef = if kind == 0 { eh::ExtField::NtsCookie(Cow::Owned(value)) } else { eh::ExtField::NtsCookiePlaceholder { cookie_length: l as u16 } };
+    let mut buf = [0xEEu8; 81];
+    let mut w = Cursor::new(&mut buf[..room]);
+    let version = if v5 { ExtensionHeaderVersion::V5 } else { ExtensionHeaderVersion::V4 };
+    let r = eh::ef_serialize_hook(&ef, &mut w, 16, version);
+    let pos = w.position() as usize;
+    let want = ef_wire(l);
+    assert!(r.is_ok() == (room >= want), "written iff it fits; otherwise an error, never a panic");
+    assert!(pos <= room);
+    if r.is_ok() {
+        assert!(pos == want);
+    }
     kani::cover!(r.is_err() && room > 16, "does not fit");
-    kani::cover!(r.is_ok() && v5 && l % 4 == 1, "v5 unpadded length");
+    kani::cover!(r.is_ok() && room == want, "fits exactly");
+    core::mem::forget(ef);
 }
 
 // ------------------------------------------------------------------------------------------
@@ -198,18 +222,20 @@ fn c14_budget() {
 // ------------------------------------------------------------------------------------------
 // the write_zeros model used by the poll harnesses (common.rs) against the real loop
 #[kani::proof]
-#[kani::unwind(36)]
+#[kani::unwind(6)]
 fn c14_write_zeros_model() {
+    // the model is only ever reached with small n in the harnesses that use it (padding of the
+    // fields of a plain poll message); large runs go through the real loop in c14_ef_size
     let n: usize = kani::any();
-    kani::assume(n <= 1100);
+    kani::assume(n <= 128);
     let room: usize = kani::any();
-    kani::assume(room <= 1100);
+    kani::assume(room <= 160);
     let start: usize = kani::any();
     kani::assume(start <= room);
     let j: usize = kani::any();
-    kani::assume(j < 1100);
-    let mut a = [0xEEu8; 1100];
-    let mut b = [0xEEu8; 1100];
+    kani::assume(j < 160);
+    let mut a = [0xEEu8; 161];
+    let mut b = [0xEEu8; 161];
     let (ra, pa) = {
         let mut w = Cursor::new(&mut a[..room]);
         w.set_position(start as u64);
@@ -229,55 +255,75 @@ fn c14_write_zeros_model() {
         assert!(a[j] == b[j], "same bytes");
         assert!(a[j] == if j >= start && j < start + n { 0 } else { 0xEE }, "exactly n zero bytes");
     }
-    kani::cover!(ra && n == 1100 && start == 0, "largest run");
+    kani::cover!(ra && n == 128 && start == 7, "largest run");
     kani::cover!(!ra && n > 32, "does not fit");
     kani::cover!(ra && n == 0, "nothing to write");
 }
 
 // ------------------------------------------------------------------------------------------
-// sources without NTS: all protocol versions
-harness! {
-    #[kani::unwind(12)]
-    #[kani::stub(std::collections::HashMap::insert, crate::stubs::hashmap_insert_noop)]
-    fn c14_poll_plain() {
-        stubs::symbolic_clock();
-        stubs::symbolic_rng();
-        let version_sel: u8 = kani::any();
-        kani::assume(version_sel <= 3);
-        let tries_left: u8 = kani::any();
-        let desired: i8 = kani::any();
-        let remote: i8 = kani::any();
-        let reach: u8 = kani::any();
-        let tries: usize = kani::any();
-        let have_deny: bool = kani::any();
+// sources without NTS: real builder + real encoder, one harness per protocol-version state
+fn c14_plain_body(version_sel: u8) {
+    stubs::symbolic_clock();
+    sym_rng();
+    let tries_left: u8 = kani::any();
+    let desired: i8 = kani::any();
+    let remote: i8 = kani::any();
+    let reach: u8 = kani::any();
+    let tries: usize = kani::any();
+    let have_deny: bool = kani::any();
 
-        let mut src = new_source(version_from(version_sel, tries_left), SourceConfig::default(), poll(desired), None);
-        sh::set_remote_min_poll_interval(&mut src, poll(remote));
-        sh::set_reach(&mut src, reach);
-        sh::set_tries(&mut src, tries);
-        sh::set_have_deny(&mut src, have_deny);
+    let mut src = new_source(version_from(version_sel, tries_left), SourceConfig::default(), poll(desired), None);
+    sh::set_remote_min_poll_interval(&mut src, poll(remote));
+    sh::set_reach(&mut src, reach);
+    sh::set_tries(&mut src, tries);
+    sh::set_have_deny(&mut src, have_deny);
 
-        let (acts, n) = collect_actions(src.handle_timer());
-        let sent = match &acts[0] {
-            Some(NtpSourceAction::Send(p)) => {
-                assert!(n == 2 && matches!(acts[1], Some(NtpSourceAction::SetTimer(_))), "Send is followed by SetTimer only");
-                assert!(p.len() <= 1024, "request fits the 1024-byte send buffer");
-                true
-            }
-            Some(NtpSourceAction::Reset) | Some(NtpSourceAction::Demobilize) => {
-                assert!(n == 1, "Reset/Demobilize stands alone");
-                assert!(reach == 0 && tries >= 3, "only an unreachable source gives up");
-                false
-            }
-            _ => {
-                assert!(false, "Send+SetTimer, Reset or Demobilize");
-                false
-            }
-        };
-        kani::cover!(sent && version_sel == 3, "v5 request");
-        kani::cover!(sent && version_sel == 1, "upgrade request");
-        kani::cover!(sent && version_sel == 0 && desired == -128, "extreme poll exponent");
-        kani::cover!(!sent && have_deny, "demobilize");
-    }
+    let (acts, n) = collect_actions(src.handle_timer());
+    let sent = match &acts[0] {
+        Some(NtpSourceAction::Send(p)) => {
+            assert!(n == 2 && matches!(acts[1], Some(NtpSourceAction::SetTimer(_))), "Send is followed by SetTimer only");
+            assert!(p.len() <= 1024, "request fits the 1024-byte send buffer");
+            assert!(p.len() >= 48);
+            true
+        }
+        Some(NtpSourceAction::Reset) | Some(NtpSourceAction::Demobilize) => {
+            assert!(n == 1, "Reset/Demobilize stands alone");
+            assert!(reach == 0 && tries >= 3, "only an unreachable source gives up");
+            false
+        }
+        _ => {
+            assert!(false, "Send+SetTimer, Reset or Demobilize");
+            false
+        }
+    };
+    kani::cover!(sent && desired == -128, "extreme poll exponent");
+    kani::cover!(sent && remote == 127, "server asked for the longest interval");
+    kani::cover!(!sent && have_deny, "demobilize");
+    core::mem::forget(src);
+    core::mem::forget(acts);
 }
 
+nharness! {
+    #[kani::unwind(6)]
+    fn c14_poll_plain_v4() {
+        c14_plain_body(0);
+    }
+}
+nharness! {
+    #[kani::unwind(6)]
+    fn c14_poll_plain_upgrading() {
+        c14_plain_body(1);
+    }
+}
+nharness! {
+    #[kani::unwind(6)]
+    fn c14_poll_plain_upgraded() {
+        c14_plain_body(2);
+    }
+}
+nharness! {
+    #[kani::unwind(6)]
+    fn c14_poll_plain_v5() {
+        c14_plain_body(3);
+    }
+}
